@@ -201,8 +201,9 @@ func (r *vrec) OnUpdates(us []api.Update) {
 // ---------------------------------------------------------------------------------------------- server-side event log
 
 type vlog struct {
-	mu sync.Mutex
-	ev []byte // 'C' = kv-sender (or snapshot streamer) looked at the cache for one crumb, 'W' = a write to the client
+	mu  sync.Mutex
+	ev  []byte   // 'C' = kv-sender (or snapshot streamer) looked at the cache for one crumb, 'W' = a write to the client
+	lat []uint64 // for the i-th 'C': SequenceNumber of the crumb that CurrentBreadcrumb() returned (the "latest" crumb)
 }
 
 func (l *vlog) add(b byte) { l.mu.Lock(); l.ev = append(l.ev, b); l.mu.Unlock() }
@@ -215,9 +216,10 @@ type logCache struct {
 }
 
 func (c *logCache) CurrentBreadcrumb() *snapcache.Breadcrumb {
-	c.l.add('C')
 	b := c.inner.CurrentBreadcrumb()
 	c.l.mu.Lock()
+	c.l.ev = append(c.l.ev, 'C')
+	c.l.lat = append(c.l.lat, b.SequenceNumber)
 	if c.calls == 0 {
 		c.firstSeq = b.SequenceNumber
 	}
@@ -232,14 +234,27 @@ type logSnap struct {
 	l     *vlog
 	seq   uint64
 	used  bool
+	c     *caseRun
 }
 
 func (s *logSnap) SendSnapshot(ctx context.Context, w io.Writer, conn WriteDeadlineSetter) (*snapcache.Breadcrumb, error) {
+	// what the snapshot cache can see when it is asked: the (virtual) time and the newest crumb
+	t := time.Since(s.c.t0)
+	cur := s.c.cache.CurrentBreadcrumb().SequenceNumber
 	b, err := s.inner.SendSnapshot(ctx, w, conn)
 	if b != nil {
 		s.l.mu.Lock()
 		s.seq, s.used = b.SequenceNumber, true
 		s.l.mu.Unlock()
+		s.c.snapMu.Lock()
+		s.c.snapReqs = append(s.c.snapReqs, fmt.Sprintf("(%d, %d, %d)", int64(t), cur, b.SequenceNumber))
+		if b.SequenceNumber < cur {
+			s.c.snapOld = true
+		}
+		if len(s.c.snapReqs) > 1 {
+			s.c.snapNth = true
+		}
+		s.c.snapMu.Unlock()
 	}
 	return b, err
 }
@@ -251,35 +266,42 @@ type logWriter struct {
 
 func (w *logWriter) Write(p []byte) (int, error) { w.l.add('W'); return w.w.Write(p) }
 
-// groups: sizes of the maximal runs of 'C' after the snapshot phase.
-func (l *vlog) groups(streamed bool) []int {
+// groups: sizes of the maximal runs of 'C' after the snapshot phase, and for each of those 'C's the newest crumb
+// that the sender saw when it looked.
+func (l *vlog) groups(streamed bool) ([]int, []uint64) {
 	l.mu.Lock()
 	defer l.mu.Unlock()
 	ev := l.ev
-	i := 0
+	i, ci := 0, 0
 	if streamed {
 		// the single CurrentBreadcrumb() call of handle() that picks the snapshot crumb
 		for i < len(ev) && ev[i] != 'C' {
 			i++
 		}
 		i++
+		ci++
 	}
 	for i < len(ev) && ev[i] == 'W' {
 		i++
 	}
 	var gs []int
+	var lats []uint64
 	for i < len(ev) {
 		n := 0
 		for i < len(ev) && ev[i] == 'C' {
 			n++
 			i++
+			if ci < len(l.lat) {
+				lats = append(lats, l.lat[ci])
+			}
+			ci++
 		}
 		for i < len(ev) && ev[i] == 'W' {
 			i++
 		}
 		gs = append(gs, n)
 	}
-	return gs
+	return gs, lats
 }
 
 // ---------------------------------------------------------------------------------------------- one case
@@ -312,6 +334,12 @@ type caseRun struct {
 	nUpd     int
 	mode     int // 0 normal, 1 statuses only, 2 mostly no-op updates, 3 update lists of exactly MaxBatchSize (+0/+1/x2)
 	connID   uint64
+	t0       time.Time // start of the case on the virtual clock
+	snapMu   sync.Mutex
+	snapReqs []string // (time, newest crumb, crumb served) for every request to the binary snapshot cache, in order
+	snapOld  bool
+	snapNth  bool
+	lats     []string // per connection (same order as clients): newest crumb seen at each step of the delta loop
 }
 
 func (c *caseRun) tag(s string) { c.tags[s] = true }
@@ -509,7 +537,7 @@ func (c *caseRun) startClient() *vclient {
 	connCxt, cancel := context.WithCancel(c.ctx)
 	lw := &logWriter{w: sEnd, l: v.lg}
 	v.lc = &logCache{inner: c.cache, l: v.lg}
-	v.ls = &logSnap{inner: c.srv.binSnapCaches[syncproto.CompressionSnappy][syncproto.SyncerTypeFelix], l: v.lg}
+	v.ls = &logSnap{inner: c.srv.binSnapCaches[syncproto.CompressionSnappy][syncproto.SyncerTypeFelix], l: v.lg, c: c}
 	c.connID++
 	// as in Server.serve
 	conn := &connection{
@@ -603,7 +631,12 @@ func (v *vclient) finish() {
 	if dead || !snapOK {
 		obs = append(obs, "CDead")
 	}
-	gs := v.lg.groups(v.streamed)
+	gs, lats := v.lg.groups(v.streamed)
+	lstr := make([]string, len(lats))
+	for i, l := range lats {
+		lstr[i] = strconv.FormatUint(l, 10)
+	}
+	c.lats = append(c.lats, "["+strings.Join(lstr, "; ")+"]")
 	gstr := make([]string, len(gs))
 	multi := false
 	for i, g := range gs {
@@ -736,6 +769,7 @@ func runCase(t *testing.T, seed uint64) vline {
 		ctx, cancel := context.WithCancel(context.Background())
 		defer cancel()
 		c.ctx = ctx
+		c.t0 = time.Now()
 		c.maxBatch = []int{1, 2, 3, 5, 8, 100, 0, 1, 2}[r.intn(9)] // 0 = default (100)
 		c.maxMsg = []int{1, 2, 3, 5, 100, 0}[r.intn(6)]            // 0 = default (100)
 		c.tag(fmt.Sprintf("cfg:maxBatch=%d", c.maxBatch))
@@ -791,7 +825,27 @@ func runCase(t *testing.T, seed uint64) vline {
 		synctest.Wait()
 		c.cache.VerifStop()
 		crumbs, ncr := c.crumbsTerm()
-		coq := fmt.Sprintf("(mkCase %d [%s] %s [%s])%%N", c.maxBatch, strings.Join(c.pushes, "; "), crumbs, strings.Join(c.clients, "; "))
+		var tss []string
+		for b := c.first; b != nil; b = b.VerifNext() {
+			ts := int64(b.Timestamp.Sub(c.t0))
+			if ts < 0 {
+				ts = 0
+			}
+			tss = append(tss, strconv.FormatInt(ts, 10))
+		}
+		c.snapMu.Lock()
+		if c.snapOld {
+			c.tag("snapcache:older-crumb-served")
+		}
+		if c.snapNth {
+			c.tag("snapcache:repeated-requests")
+		}
+		// the environment of the sender and of the snapshot cache: thresholds, crumb timestamps, what was newest when
+		// each of them looked
+		coq := fmt.Sprintf("(mkCase2 (mkCase %d [%s] %s [%s]) %d %d %d [%s] [%s] [%s])%%N", c.maxBatch, strings.Join(c.pushes, "; "), crumbs,
+			strings.Join(c.clients, "; "), int64(c.srv.config.MinBatchingAgeThreshold), c.srv.config.MaxMessageSize,
+			int64(c.srv.config.BinarySnapshotTimeout), strings.Join(tss, "; "), strings.Join(c.lats, "; "), strings.Join(c.snapReqs, "; "))
+		c.snapMu.Unlock()
 		var tags []string
 		for k := range c.tags {
 			tags = append(tags, k)
